@@ -174,6 +174,21 @@ def make_collab_classes(rt, prog):
                    res=('nores',))
             await rt.collab_call('ev', rtm.short(node_id))
 
+    class Events2:
+        """a second, independent event manager (order of managers: Events, Events2)"""
+
+        async def on_pipeline_start(self, ctx):  # noqa: ANN001
+            await rt.collab_call('ev2', '-')
+
+        async def on_pipeline_complete(self, ctx, result):  # noqa: ANN001
+            await rt.collab_call('ev2', '-')
+
+        async def on_node_start(self, ctx, node_id):  # noqa: ANN001
+            await rt.collab_call('ev2', rtm.short(node_id))
+
+        async def on_node_complete(self, ctx, node_id, error):  # noqa: ANN001
+            await rt.collab_call('ev2', rtm.short(node_id))
+
     class Store(ArtifactStore):
         async def save(self, node_id, data):  # noqa: ANN001
             rt.log(e='Save', r=rtm.CUR_RUN.get(), n=rtm.short(node_id), v=rt.to_term(data))
@@ -182,7 +197,7 @@ def make_collab_classes(rt, prog):
         async def load(self, node_id):  # noqa: ANN001
             raise NotImplementedError
 
-    return Events, Store
+    return Events, Store, Events2
 
 
 def build_chart(prog, rt, events=True, store=True, manager_cls=None):
@@ -193,12 +208,15 @@ def build_chart(prog, rt, events=True, store=True, manager_cls=None):
     dag = build_dag(input_node=classes[prog['input']], output_node=classes[prog['output']])
     if manager_cls is not None:
         dag.run_manager = manager_cls
-    Events, Store = make_collab_classes(rt, prog)
+    Events, Store, Events2 = make_collab_classes(rt, prog)
+    managers = [Events] if events else []
+    if events and 'ev2' in (prog.get('collab') or {}):
+        managers.append(Events2)
     chart = PipelineChart(
         model_name='verif',
         entrypoint=dag,
         artifact_store=Store if store else None,
-        event_managers=[Events] if events else [],
+        event_managers=managers,
     )
     return chart, dag, classes
 
